@@ -144,7 +144,8 @@ type WorkerResult struct {
 	SweepDone  bool           `json:"sweep_done"`
 	SweepSize  int            `json:"sweep_size"`
 	HarnessErr string         `json:"harness_err,omitempty"`
-	Digests    []string       `json:"digests,omitempty"` // selftest mode
+	Digests    []string       `json:"digests,omitempty"`   // selftest mode
+	ResumeAt   int            `json:"resume_at,omitempty"` // the process ended itself (memory): a fresh one continues at this run
 }
 
 type execResult struct {
@@ -385,9 +386,16 @@ func WorkerMain(t *testing.T) {
 			first++
 		}
 	}
-	for run := first; run < total; run += nworkers {
+	maxRSS := int64(envInt("VERIF_MAXRSS_MB", 3000)) << 20
+	for run, iter := first, 0; run < total; run, iter = run+nworkers, iter+1 {
 		if time.Now().After(deadline) {
 			completed = false
+			break
+		}
+		if iter%32 == 31 && !selftest && residentBytes() > maxRSS {
+			// the race-detector build grows by gigabytes per minute: hand over to a fresh process
+			completed = false
+			res.ResumeAt = run
 			break
 		}
 		var tape *Tape
@@ -525,6 +533,20 @@ func sanitizeName(s string) string {
 // startWatchdog aborts the process (exit 2: harness trouble, never a
 // violation) when a single run makes no progress in real time, which means the
 // fake clock is frozen.
+// residentBytes is the resident set size of this process (0 if unknown).
+func residentBytes() int64 {
+	b, err := os.ReadFile("/proc/self/statm")
+	if err != nil {
+		return 0
+	}
+	f := strings.Fields(string(b))
+	if len(f) < 2 {
+		return 0
+	}
+	n, _ := strconv.ParseInt(f[1], 10, 64)
+	return n * int64(os.Getpagesize())
+}
+
 var partialResult func() []byte
 
 func startWatchdog(out string) {
